@@ -15,7 +15,7 @@ def run(ctx):
     if not ctx.translate():
         return
     ok = ctx.prove(MODULES)
-    n = 150 if ctx.thorough() else 30
+    n = 400 if ctx.thorough() else 30
     res = fw.corr(ctx, "gauge", n)
     fw.report_corr(ctx, "gauge", res, features)
     if res is not None:
@@ -35,7 +35,7 @@ def replay(ctx, path):
     for fi in d.get("failing_inputs", []):
         inp = fi.get("input") or {}
         if inp.get("suite") == "gauge" and svh:
-            p = subprocess.run([svh, "-seed", str(inp.get("seed", 1)), "-n", "60" if d.get("tier") == "thorough" else "14",
+            p = subprocess.run([svh, "-seed", str(inp.get("seed", 1)), "-n", "400" if d.get("tier") == "thorough" else "30",
                                 "-tier", d.get("tier", "quick"), "gauge"], stdout=subprocess.PIPE)
             for l in p.stdout.decode().splitlines():
                 if l.startswith("! ") and " FAIL " in l:
